@@ -203,6 +203,20 @@ func syncRules(c *Ctx) {
 		}
 	}
 	if e.reloadFn == nil {
+		// New may itself go through the re-analysis method (New = construct + reload): compare the calls one level down
+		flat := e.flatMethodCallsOn(newFn)
+		for _, fi := range c.P.SortedFuncs() {
+			if !strings.HasPrefix(fi.Name(), "Spec.") || fi.Obj.Exported() {
+				continue
+			}
+			calls := e.methodCallsOn(fi)
+			if len(calls) >= 2 && strings.Join(calls, ",") == strings.Join(flat, ",") {
+				e.reloadFn = fi
+				newCalls = flat
+			}
+		}
+	}
+	if e.reloadFn == nil {
 		c.S.Violate("C10", "SYNC-RELOAD-EQ-NEW", "reload", c.P.Pos(newFn.Decl.Pos()),
 			"no *Spec method rebuilds the index with the same calls, in the same order, as New ("+strings.Join(newCalls, ", ")+"): after a re-analysis the index need not equal that of analysis.New(document)")
 		return
@@ -261,7 +275,7 @@ func syncRules(c *Ctx) {
 			"New fills the index only through the calls it shares with the re-analysis",
 			"New stores into the analyzer directly ("+strings.Join(direct, ", ")+"), outside the calls it shares with "+e.reloadFn.Name()+": those entries are missing after every re-analysis, so the Spec handed to Flatten no longer answers like analysis.New(document)")
 	}
-	e.covReset(newFn)
+	e.covReset(newCalls)
 
 	reach := core.SortedSet(c.P.Reachable(flat))
 	e.identity(reach)
@@ -346,6 +360,28 @@ func (e *syncEngine) methodCallsOn(fi *core.FuncInfo) []string {
 	return out
 }
 
+// flatMethodCallsOn: like methodCallsOn, with each unexported *Spec method replaced by the methods it calls itself.
+func (e *syncEngine) flatMethodCallsOn(fi *core.FuncInfo) []string {
+	var out []string
+	for _, call := range calls(fi.Decl.Body) {
+		callee := e.c.P.StaticCallee(fi, call)
+		g := e.c.P.Funcs[callee]
+		if callee == nil || g == nil {
+			continue
+		}
+		sig := callee.Type().(*types.Signature)
+		if sig.Recv() == nil || !core.IsModType(sig.Recv().Type(), "Spec") {
+			continue
+		}
+		if inner := e.methodCallsOn(g); len(inner) > 0 && !callee.Exported() {
+			out = append(out, inner...)
+			continue
+		}
+		out = append(out, callee.Name())
+	}
+	return out
+}
+
 // identity (SYNC-IDENTITY): Flatten works on a copy of its options, so the analyzer the caller observes is the
 // one the Spec field pointed to on entry. No function below Flatten may re-point that field (to a new analyzer):
 // every later re-analysis would then refresh a private analyzer and leave the caller's stale.
@@ -396,9 +432,8 @@ func (e *syncEngine) identity(reach []*core.FuncInfo) {
 }
 
 // covReset: the first rebuild function assigns every map field of Spec (recursively through struct fields) with make.
-func (e *syncEngine) covReset(newFn *core.FuncInfo) {
+func (e *syncEngine) covReset(calls []string) {
 	c := e.c
-	calls := e.methodCallsOn(newFn)
 	if len(calls) == 0 {
 		return
 	}
@@ -575,7 +610,8 @@ type syncFn struct {
 	info  *types.Info
 	sum   *syncSummary
 	flags map[types.Object]bool
-	jumps []dset // per enclosing loop: states at break/continue statements
+	jumps  []dset // per enclosing loop: states at break/continue statements
+	breaks []dset // per enclosing loop: states at break statements only (what leaves a `for {}`)
 	bind  map[int]types.Object
 	// the state before the statement being executed, and before the previous one of the same list
 	curIn, prevIn dset
@@ -720,7 +756,13 @@ func (f *syncFn) isErrorExit(r *ast.ReturnStmt) bool {
 			continue
 		}
 		if call, ok := core.Unparen(res).(*ast.CallExpr); ok {
-			_ = call
+			// `return phase(…)`: a tail call of a function that touches the document or the index is not the
+			// construction of an error — its success exits are this function's
+			if callee := f.e.c.P.StaticCallee(f.fi, call); callee != nil {
+				if cs := f.e.sum[f.e.c.P.Funcs[callee]]; cs != nil && (cs.mutates || cs.needsSync) {
+					continue
+				}
+			}
 			return true
 		}
 	}
@@ -780,6 +822,9 @@ func (f *syncFn) stmt(st ast.Stmt, s dset) (dset, bool) {
 		if n := len(f.jumps); n > 0 {
 			f.jumps[n-1] = f.jumps[n-1].union(s)
 		}
+		if n := len(f.breaks); n > 0 && x.Tok == token.BREAK && x.Label == nil {
+			f.breaks[n-1] = f.breaks[n-1].union(s)
+		}
 		return s, true
 	case *ast.IfStmt:
 		pre := s
@@ -814,6 +859,14 @@ func (f *syncFn) stmt(st ast.Stmt, s dset) (dset, bool) {
 	case *ast.ForStmt:
 		if x.Init != nil {
 			s, _ = f.stmt(x.Init, s)
+		}
+		if x.Cond == nil {
+			// for { … }: left only through break (or return): what follows sees the states at the breaks
+			out, broke := f.foreverLoop(x.Body, x.Post, s)
+			if !broke {
+				return out, true
+			}
+			return out, false
 		}
 		return f.loop(x.Cond, x.Body, x.Post, s), false
 	case *ast.RangeStmt:
@@ -1033,6 +1086,34 @@ func (f *syncFn) loop(cond ast.Expr, body *ast.BlockStmt, post ast.Stmt, s dset)
 		acc = f.expr(cond, acc)
 	}
 	return acc
+}
+
+// foreverLoop: a loop without condition. Returns the union of the states at its break statements and whether there
+// is any (a switch or select inside the body would capture an unlabelled break: none below Flatten).
+func (f *syncFn) foreverLoop(body *ast.BlockStmt, post ast.Stmt, s dset) (dset, bool) {
+	acc := s.clone()
+	left := dset{}
+	for i := 0; i < 6; i++ {
+		f.jumps = append(f.jumps, dset{})
+		f.breaks = append(f.breaks, dset{})
+		out, _ := f.stmts(body.List, acc)
+		br := f.breaks[len(f.breaks)-1]
+		all := f.jumps[len(f.jumps)-1]
+		f.jumps = f.jumps[:len(f.jumps)-1]
+		f.breaks = f.breaks[:len(f.breaks)-1]
+		left = left.union(br)
+		// continue paths (all jumps that are not breaks are over-approximated by all jumps) rejoin the head
+		out = out.union(all)
+		if post != nil {
+			out, _ = f.stmt(post, out)
+		}
+		n := len(acc)
+		acc = acc.union(out)
+		if len(acc) == n {
+			break
+		}
+	}
+	return left, len(left) > 0
 }
 
 func (f *syncFn) mutate(s dset) dset {
